@@ -651,7 +651,36 @@ def evaluate(d):
         ppq = rng.choice([4, 12, 96, 480])
         unit = max(1, ppq // 4)
         mf = mido.MidiFile(type=1, ticks_per_beat=ppq)
-        for ti in range(rng.randint(1, 3)):
+        wellformed = rng.random() < 0.5
+        wf_notes = []  # (track, on, off, pitch, channel, velocity)
+        for ti in range(rng.randint(1, 3) if wellformed else 0):
+            # a well-formed track: per (channel, pitch) a chain of notes that at most touch; note offs are
+            # written as note_off or as note_on with velocity 0
+            tr = mido.MidiTrack()
+            mf.tracks.append(tr)
+            evs = []
+            for key in set((rng.choice([0, 1]), rng.choice([60, 62, 64])) for _ in range(3)):
+                t = rng.choice([0, 1, 2]) * unit
+                for _ in range(rng.randint(1, 4)):
+                    dur = rng.choice([0, 1, 1, 2, 4]) * unit
+                    vel = rng.choice([1, 64, 90, 127])
+                    wf_notes.append((ti, t, t + dur, key[1], key[0], vel))
+                    off = (mido.Message("note_off", note=key[1], channel=key[0], velocity=rng.choice([0, 64])) if rng.random() < 0.5
+                           else mido.Message("note_on", note=key[1], channel=key[0], velocity=0))
+                    on = mido.Message("note_on", note=key[1], channel=key[0], velocity=vel)
+                    if dur == 0:
+                        evs.append((t, 1, len(evs), on))
+                        evs.append((t, 1, len(evs), off))
+                    else:
+                        evs.append((t, 2, len(evs), on))
+                        evs.append((t + dur, 0, len(evs), off))
+                    t += dur + rng.choice([0, 0, 1, 2]) * unit
+            tr.append(mido.MetaMessage("time_signature", numerator=4, denominator=4, time=0))
+            prev = 0
+            for (t, _, _, m) in sorted(evs, key=lambda e: e[:3]):
+                tr.append(m.copy(time=t - prev))
+                prev = t
+        for ti in range(0 if wellformed else rng.randint(1, 3)):
             tr = mido.MidiTrack()
             mf.tracks.append(tr)
             if rng.random() < 0.7:
@@ -699,6 +728,23 @@ def evaluate(d):
         elif n_notes == 0:
             ev.requests.append("imp %d %s" % (d["mode"], ttoks))
             ev.impl.append("err")
+        if wellformed:
+            want = Counter((a, b, c, p, ch, v) for (a, b, c, p, ch, v) in wf_notes)
+            if e2:
+                ev.oracle.append("raw(perf): load_performance_midi raised %s on a well-formed file" % type(e2).__name__)
+            else:
+                got = Counter((n["track"], n["note_on_tick"], n["note_off_tick"], n["midi_pitch"], n["channel"], n["velocity"]) for n in pnotes)
+                if got != want:
+                    ev.oracle.append("raw(perf): notes read from a well-formed file (offs partly as zero-velocity note ons) differ: missing %r, "
+                                     "unexpected %r" % (list((want - got).items())[:2], list((got - want).items())[:2]))
+            if e3:
+                ev.oracle.append("raw(import): load_score_midi raised %s on a well-formed file" % type(e3).__name__)
+            else:
+                got = Counter((n.start.t, n.duration_tied, int(n.midi_pitch)) for p2 in sc2.parts for n in p2.notes_tied)
+                want2 = Counter((b, c - b, p) for (a, b, c, p, ch, v) in wf_notes)
+                if got != want2:
+                    ev.oracle.append("raw(import): notes imported from a well-formed file differ: missing %r, unexpected %r"
+                                     % (list((want2 - got).items())[:2], list((got - want2).items())[:2]))
         ev.info = {"raw_import_raised": bool(e3) and n_notes > 0, "raw_perf_raised": bool(e2)}
         ev.key = "raw:%d:%d" % (d["seed"], d["mode"]) if n_notes else None
     elif k == "tied":
@@ -937,7 +983,7 @@ def oracle(sd, order, cfg, mf, tracks, pnotes, sc2, tag):
                     if have[(tk, b, bt)] == 0:
                         out.append("timesig(file): [%s] part %d signature %d/%d at division %d missing at tick %s of track %d"
                                    % (tag, pi, b, bt, t, tk, trk))
-        for trk in range(len(msgs)):
+        for trk in (range(len(msgs)) if (pnotes is not None and got == want_ms) else []):
             owners = [pi for pi in part_tracks if trk in part_tracks[pi]]
             allowed = set()
             for pi in owners:
